@@ -177,6 +177,18 @@ VALUES = {
 }
 
 
+def adversary(n):
+    """an order on which a quicksort that takes the median of first / middle / last and keeps an explicit stack of pending ranges (Duden/Sortierung)
+    picks the third smallest element of every range as pivot: every level leaves a two-element range pending, the stack grows to about n/3 entries
+    (more than the 50 pairs it is created with, from about 155 elements on)"""
+    def build(vals):
+        if len(vals) <= 5:
+            return list(vals)
+        R = build(vals[3:])
+        return [vals[0], vals[1], R[-1]] + R[:-1] + [vals[2]]
+    return build(list(range(1, n + 1)))
+
+
 def long_lists(rng):
     """longer lists in structured orders for the sorting functions (ascending, descending, organ pipe, saw tooth, many equal keys, the
     classic median-of-three adversary 1, k+1, 3, k+3, ..., 2, 4, 6, ... and seeded random orders)"""
@@ -186,6 +198,7 @@ def long_lists(rng):
         out += [list(range(1, n + 1)), list(range(n, 0, -1)), list(range(1, k + 1)) + list(range(k, 0, -1)), [i % 7 for i in range(n)], [i % 2 for i in range(n)],
                 [x for i in range(1, k + 1) for x in [i if i % 2 else k + i - 1]] + [2 * i for i in range(1, k + 1)],
                 [rng.randrange(-50, 50) for _ in range(n)], rng.sample(range(1000), n)]
+    out += [adversary(160), adversary(200), adversary(170)[::-1], adversary(330)]
     return out
 
 
